@@ -84,6 +84,11 @@ func c03Case(r *evid.Run, tier string, idx int, g *rng.R) {
 		d.Finish()
 	}
 	w, err := newWorld(d)
+	if err == nil && idx%4 == 3 {
+		// every fourth case runs the evaluator on the independent Cursor implementation (R-ref)
+		w, err = newRefWorld(d)
+		r.Count("cases_on_reference_cursor", 1)
+	}
 	if err != nil {
 		// duplicate or misplaced positions show up here first: a tree that does not mirror the stream
 		r.Violate("store-tree-mismatch", map[string]any{"case": idx, "what": err.Error(), "document": d.Dump()})
